@@ -6,7 +6,8 @@ from common import sh2
 LEVEL = "proof"
 MANIFEST = {
     "technique": "Coq proof over a hand-written Gallina model of MdatBox (ReadData/CopyData/Encode/Size, both decode modes), "
-                 "io.ReadFull/io.CopyN over an oracle-driven ReadSeeker and File.CopySampleData + differential correspondence "
+                 "io.ReadFull/io.CopyN over an oracle-driven ReadSeeker, File.CopySampleData, DecodeFile's box loop + File.AddChild (segments / fragments) "
+                 "and File.Encode + differential correspondence "
                  "(extracted OCaml vs Go) + failing-input search (file-slice oracle)",
     "level_text": "Theorems (coq/c08/C08Theorems.v), for every file (byte list, length < 2^63), every mdat box lying in it with an "
                   "8- or 16-byte header, every short-read schedule of the ReadSeeker and both empty-read behaviours: "
@@ -30,14 +31,38 @@ MANIFEST = {
                   "positions of both trees on synthesized progressive and fragmented files). The model is tied to /repo on every run by running it (extracted) "
                   "against the real code on ALL (start,size) ranges (valid and invalid) of small mdats, random ranges of large ones, all "
                   "sample intervals x work buffers {0,1,2,3,7,8,4096} of synthesized progressive files; the theorems' hypotheses are "
-                  "evaluated by the model driver on the chunk lists the real GetContainingChunks returned.",
+                  "evaluated by the model driver on the chunk lists the real GetContainingChunks returned. "
+                  "Round 2 (coq/c08/C08ExtTheorems.v): C08_frag_tree_equal (DecodeFile = top-level walk + the per-box checks of the loop + "
+                  "File.AddChild / startSegmentIfNeeded / Fragment.AddChild, written ONCE over an abstract mdat type and proved to commute with "
+                  "every change of mdat representation that preserves Size()-HeaderSize(): for every file that is a sequence of boxes - styp, sidx, "
+                  "emsg, moof, mdat (8/16-byte header, empty or not), mfra, anything else, in ANY arrangement, with or without DecStartOnMoof, "
+                  "whatever the common decoder read out of moov / sidx - both modes end in the same outcome class and build the same File: "
+                  "isFragmented, Init, File.Mdat, Sidxs, Segments and Fragments at the same positions, the same mdat (StartPos, LargeSize, Size(), "
+                  "PayloadAbsoluteOffset(), payload size) attached to the same moof, same Children); C08_frag_pairing ((moof mdat)+ gives one "
+                  "segment with one fragment per pair, fragment i = moof i + the mdat that follows it); C08_file_encode (File.Encode of a "
+                  "progressive file / EncModeBoxTree: the in-memory decoding writes the file back, the lazy decoding writes the file with every "
+                  "mdat payload left out - header only, no error -, and header followed by CopyData of the payload writes the file back, every "
+                  "short-read schedule); C08_lazy_writer (segmenter -lazy: Encode of an mdat prepared for n bytes ++ ANY n bytes is a well-formed "
+                  "mdat box with that payload, 16-byte header iff n > 2^32-9); C08_copy_samples_multitrack (+ Example with DECREASING chunk offsets "
+                  "and another track's chunk in between: C08_copy_samples assumes nothing about the order or spacing of chunk offsets). "
+                  "Only explored (search, not proved): below the top level (Info dump); File.Encode in EncModeSegment of a lazily decoded "
+                  "fragmented file = the in-memory output minus the mdat payloads; the sample-reading API on lazily decoded fragments "
+                  "(GetFullSamples must fail rather than panic or return other bytes, GetSampleInterval + ReadData/CopyData return the samples' "
+                  "bytes); the lazy writer end to end (written segment decodes to one fragment whose mdat payload is samples a..b); "
+                  "multi-track interleaved files against the generator's ground truth; a sparse > 4 GiB file (co64 offsets around and above "
+                  "2^32, 16-byte mdat header) through a position-synthesizing ReadSeeker - on the Coq side such files are inside the theorems' "
+                  "scope (file length < 2^63) and the correspondence compares the (seek offset, bytes read) pairs with chunk_seg.",
     "level_note": "Trusted: Coq kernel, extraction (ExtrOcamlBasic), OCaml/Go glue, and the correspondence being only as good as its "
                   "generated inputs. The io.Writer never fails; DataParts (output only) is not modelled; the empty range AT the payload "
                   "end is not counted as a valid range (in memory: error, lazy: empty result). Sub-boxes of moov etc. are decoded by the "
                   "same Go code in both modes and are opaque in the model. C08_copy_samples takes the chunk list returned by "
                   "GetContainingChunks as given and assumes it is a run of consecutive chunks covering a..b (chunks_cover; that "
                   "GetContainingChunks delivers this is C09_containing_chunks, and the driver evaluates chunks_cover on every list the "
-                  "real function returned); cap(mdat.Data) = len is assumed for the in-memory slice expressions.",
+                  "real function returned); cap(mdat.Data) = len is assumed for the in-memory slice expressions. "
+                  "C08_frag_tree_equal: what DecodeFile reads out of non-mdat boxes (stts entry count of the first trak, sidx anchor and "
+                  "references) is an input of the model, the same for both modes because the same decoder runs on the same bytes; DecISMFlag "
+                  "(findAndReadMfra / tfra) and the senc parsing of moof are not modelled. C08_file_encode: boxes other than mdat are opaque and "
+                  "taken to re-encode to the bytes they were decoded from (C01/C02); EncModeSegment (SetTrunDataOffsets, OptimizeTrun) is search only.",
 }
 
 
@@ -54,7 +79,9 @@ def build(ctx):
 def run(ctx):
     ctx.cov["trusted_base"] = common.TRUSTED_BASE_COMMON + [
         "model: coq/c08/C08Model.v is a hand transcription of mp4/mdat.go, mp4/box.go (DecodeHeader, EncodeHeaderWithSize, "
-        "DecodeBox/DecodeBoxLazyMdat mdat case), mp4/file.go CopySampleData, io.ReadFull, io.CopyN",
+        "DecodeBox/DecodeBoxLazyMdat mdat case), mp4/file.go CopySampleData, io.ReadFull, io.CopyN; coq/c08/C08FragModel.v of mp4/file.go "
+        "DecodeFile loop checks, AddChild, startSegmentIfNeeded, mediasegment.go / fragment.go AddChild; coq/c08/C08EncModel.v of File.Encode (children in order)",
+        "non-mdat boxes: the values DecodeFile reads out of moov / sidx are recomputed by the harness with the same decoders and handed to the model",
         "the harness's io.ReadSeeker (harness/c08/main.go oRS) is the reader the model describes (rs_read)",
     ]
     ctx.assumptions += ["the io.Writer never fails", "file length < 2^63 (positions are Go int64)",
@@ -75,7 +102,15 @@ def run(ctx):
     # ---- correspondence
     n = ctx.n(40, 400)
     exh = ctx.n(12, 18)
-    rc, cases, e = sh2([exe, "corr", "-seed", str(ctx.seed), "-n", str(n), "-exh", str(exh)], timeout=3000)
+    budget = ctx.n(420, 2400)
+    rc, cases, e = sh2([exe, "corr", "-seed", str(ctx.seed), "-n", str(n), "-exh", str(exh)], timeout=budget)
+    if rc == 124:
+        # the harness only calls the library on small generated inputs: not finishing means some call does not terminate
+        ctx.violation({"kind": "implementation-does-not-terminate", "command": "c08 corr -seed %d -n %d -exh %d" % (ctx.seed, n, exh),
+                       "budget_s": budget, "output_so_far_tail": cases[-1500:]},
+                      "harness corr did not finish within %d s (normally a few seconds): a call on the implementation does not terminate" % budget,
+                      no_input=True)
+        return
     if rc != 0:
         raise common.CheckError("harness corr failed: " + e[-1000:])
     lines = cases.splitlines()
@@ -113,7 +148,12 @@ def run(ctx):
     ctx.log("correspondence: %d cases, %d mismatches" % (len(lines), len(mism)))
     # ---- search
     ns = ctx.n(60, 2500)
-    rc, so, e = sh2([exe, "search", "-seed", str(ctx.seed), "-n", str(ns), "-exh", str(exh)], timeout=3000)
+    rc, so, e = sh2([exe, "search", "-seed", str(ctx.seed), "-n", str(ns), "-exh", str(exh)], timeout=budget)
+    if rc == 124:
+        ctx.violation({"kind": "implementation-does-not-terminate", "command": "c08 search -seed %d -n %d -exh %d" % (ctx.seed, ns, exh),
+                       "budget_s": budget, "output_so_far_tail": so[-1500:]},
+                      "harness search did not finish within %d s: a call on the implementation does not terminate" % budget, no_input=True)
+        return
     if rc != 0:
         raise common.CheckError("harness search failed: " + e[-1000:])
     fails = []
@@ -156,7 +196,14 @@ def run(ctx):
                        "equal Size/StartPos/HeaderSize; all/sampled sample intervals x work buffers {0,1,2,3,7,8,4096} of synthesized progressive "
                        "files (stco/co64, uniform stsz, gaps between chunks, zero-size samples, mdat first/last, large header) vs the generator's "
                        "ground-truth sample positions; Info dump / sizes / positions of both trees (progressive and fragmented); segmenter "
-                       "copyMediaData and mp4ff-crop writeMdat through add-only hooks" % (n + n // 4 + 1 + n // 2 + 1, exh))
+                       "copyMediaData and mp4ff-crop writeMdat through add-only hooks. Round 2: G = synthesized fragmented files (styp/sidx/emsg/moof/mdat/mfra, "
+                       "8- and 16-byte mdat headers, empty mdats, regular and irregular arrangements, truncations, DecStartOnMoof) and progressive / "
+                       "multi-mdat files: the File both modes build vs C08FragModel; E = File.Encode of both decodings and the header+CopyData writer vs "
+                       "C08EncModel; S lines also for two-track files with randomly interleaved chunks; P = (seek, bytes read) pairs on a sparse "
+                       "file beyond 4 GiB vs chunk_seg. search also: moof/mdat pairing vs the generator, every sample interval of every fragment "
+                       "through GetFullSamples / GetSampleInterval + ReadData / CopyData in both modes, lazy File.Encode (both fragmented encode "
+                       "modes) = in-memory output minus payloads, the lazy writer (AddSampleToTrack, Encode, CopySampleData, decode the result), "
+                       "interleaved two-track files x work buffers incl. the interval's byte count +-1, the sparse file" % (n + n // 4 + 1 + n // 2 + 1, exh))
 
 
 def hook_search(ctx, exe):
